@@ -323,6 +323,24 @@ func importWorker(importWork chan importJob) {
 					err = fmt.Errorf("importing roaring data: %v", r)
 				}
 			}()
+			// A request with several views is applied view by view: make
+			// sure every view would be accepted before the first is applied.
+			if len(j.req.Views) > 1 {
+				for viewName, viewData := range j.req.Views {
+					if len(viewData) < 2 {
+						continue // reported below, before anything is applied
+					}
+					// (a copy: reading the standard format rewrites run containers in place)
+					if err := roaring.CheckImportRoaringBits(append([]byte(nil), viewData...)); err != nil {
+						return errors.Wrapf(err, "checking data of view %q", viewName)
+					}
+				}
+				for viewName, viewData := range j.req.Views {
+					if len(viewData) < 2 {
+						return fmt.Errorf("no or too short data to import for view: %q", viewName)
+					}
+				}
+			}
 			for viewName, viewData := range j.req.Views {
 				if viewName == "" {
 					viewName = viewStandard
